@@ -89,11 +89,17 @@ def mk_iterable(kind, items):
 # --------------------------------------------------------------------------------------------- schema building
 
 class Env:
-    def __init__(self, tmp, schema_spec):
+    """one case: the schema built from its spec (or, inside rac(), the scenario's schema object, which holds no
+    per-configuration state: container defaults are factories), the configuration under test, a second one"""
+
+    def __init__(self, tmp, schema_spec, built=None):
         self.tmp = tmp
         self.spec = schema_spec
-        self.types = {}
-        self.schema = build(schema_spec, self, ())
+        if built is None:
+            self.types = {}
+            self.schema = build(schema_spec, self, ())
+        else:
+            self.schema, self.types = built
         self.cfg = None
         self._other = None
 
@@ -104,11 +110,9 @@ class Env:
 
 
 def _default(spec, env):
-    if "default" not in spec:
-        return None
-    j = spec["default"]
-    if isinstance(j, (list, dict)) and not ("$b" in j or "$f" in j or "$t" in j if isinstance(j, dict) else False):
-        return lambda: dec(copy.deepcopy(j), env)
+    j = spec.get("default")
+    if isinstance(j, list) or (isinstance(j, dict) and not ({"$b", "$f", "$t"} & set(j))):
+        return lambda: dec(j, env)          # a fresh container per configuration
     return dec(j, env)
 
 
@@ -301,7 +305,10 @@ def check_value(spec, v, path, role, out, env, plain=False):
             if not isinstance(v, Config):
                 out.append((path, role, spec, ["type"], v))
                 return
-            items = dict(iter(v))
+            try:
+                items = dict(iter(v))
+            except Exception:                               # fall back to reading the declared fields one by one
+                items = {}
         for name, sub in spec["fields"]:
             if plain:
                 x = items.get(name)
@@ -348,7 +355,7 @@ def _default_dump(spec, env):
         return {"$cfg": {n: _default_dump(s, env) for n, s in spec["fields"]}}
     if "default" not in spec:
         return None
-    return norm(spec, dec(copy.deepcopy(spec["default"]), env), env)
+    return norm(spec, dec(spec["default"], env), env)
 
 
 def norm(spec, raw, env, tree=False):
@@ -508,26 +515,26 @@ def apply_op(env, op):
     path = op.get("p", [])
     try:
         if r == "ctor":
-            raw = dec(copy.deepcopy(op["v"]), env)
+            raw = dec(op["v"], env)
             env.cfg = env.schema(**{path[0]: nest(path[1:], raw)})
             return "accepted", path[:1], nest(path[1:], raw), None
         if r == "attr":
             parent = navigate(cfg, path[:-1])
             if not isinstance(parent, Config):
                 raise NotApplicable("parent is not a configuration")
-            raw = dec(copy.deepcopy(op["v"]), env)
+            raw = dec(op["v"], env)
             return "accepted", path, raw, parent.__setattr__(path[-1], raw)
         if r == "item":
-            raw = dec(copy.deepcopy(op["v"]), env)
+            raw = dec(op["v"], env)
             return "accepted", path, raw, cfg.__setitem__(".".join(path), raw)
         if r == "tree":
-            cfg.load_tree(nest(path, dec(copy.deepcopy(op["v"]), env)))
+            cfg.load_tree(nest(path, dec(op["v"], env)))
             return "accepted", None, None, None
         if r == "loads":
-            cfg.loads(json.dumps(nest(path, dec(copy.deepcopy(op["v"]), env))), "json")
+            cfg.loads(json.dumps(nest(path, dec(op["v"], env))), "json")
             return "accepted", None, None, None
         if r == "cmdline":
-            raw = dec(copy.deepcopy(op["v"]), env)
+            raw = dec(op["v"], env)
             cc.cmdline_args_override(cfg, argparse.Namespace(**{".".join(path): raw}))
             return "accepted", None, None, None
         if r == "argv":
@@ -542,19 +549,21 @@ def apply_op(env, op):
             if not isinstance(obj, list):
                 raise NotApplicable("not a list")
             m = op["m"]
-            a = dec(copy.deepcopy(op.get("a")), env)
+            a = dec(op.get("a"), env)
+            is_ref = isinstance(op.get("a"), dict) and ("$self" in op["a"] or "$other" in op["a"])
+            it = a if is_ref or "kind" not in op else mk_iterable(op["kind"], a)   # a reference is passed as is
             if m == "append":
                 obj.append(a)
             elif m == "insert":
                 obj.insert(op["i"], a)
             elif m == "extend":
-                obj.extend(mk_iterable(op["kind"], a))
+                obj.extend(it)
             elif m == "iadd":
-                obj.__iadd__(mk_iterable(op["kind"], a))
+                obj.__iadd__(it)
             elif m == "setidx":
                 obj[op["i"]] = a
             elif m == "setslice":
-                obj[slice(*op["s"])] = mk_iterable(op["kind"], a)
+                obj[slice(*op["s"])] = it
             elif m == "imul":
                 obj.__imul__(op["n"])
             elif m == "delidx":
@@ -569,7 +578,7 @@ def apply_op(env, op):
             if not isinstance(obj, dict):
                 raise NotApplicable("not a dict")
             m = op["m"]
-            a = dec(copy.deepcopy(op.get("a")), env)
+            a = dec(op.get("a"), env)
             if m == "setitem":
                 obj[a[0]] = a[1]
             elif m == "update_dict":
@@ -607,25 +616,47 @@ def apply_op(env, op):
 _PRODUCED = {}
 
 
-def validator_produces(spec, bad, env):
-    """does the field's own validation chain, fed a pool value, return `bad`?  -> that raw input, else None"""
-    key = json.dumps(spec, sort_keys=True)
-    if key not in _PRODUCED:
-        outs = []
+def _scalars(j, out):
+    if isinstance(j, list):
+        for x in j:
+            _scalars(x, out)
+    elif isinstance(j, dict) and not ({"$b", "$f"} & set(j)):
+        for k, x in j.items():
+            if k == "$d":
+                _scalars([y for pair in x for y in pair], out)
+            elif k not in ("at", "$other", "$self"):
+                _scalars(x, out)
+    else:
+        out.append(j)
+        if isinstance(j, (int, float)) and not isinstance(j, bool):
+            out.append(str(j))
+    return out
+
+
+def validator_produces(spec, bad, env, op):
+    """does the field's own validation chain, fed a pool value or a scalar occurring in the operation, return
+    exactly `bad`?  -> (coded input, input), else None.  Decides whether the validator or the route is blamed."""
+    key = env.tmp + "|" + json.dumps(spec, sort_keys=True)
+    e2, c, field, outs = _PRODUCED.get(key) or (None, None, None, None)
+    if e2 is None:
         e2 = Env(env.tmp, {"t": "Schema", "fields": [["f", spec]]})
-        c = e2.schema()
-        field = e2.schema._fields["f"]
-        for j in leaf_pool(spec):
+        c, field, outs = e2.schema(), getattr(e2.schema, "f"), {}
+        _PRODUCED[key] = (e2, c, field, outs)
+    cands = leaf_pool(spec) + _scalars([op.get("v"), op.get("a"), op.get("argv")], [])
+    for j in cands:
+        k = json.dumps(j, sort_keys=True)
+        if k not in outs:
             try:
-                raw = dec(copy.deepcopy(j), e2)
-                outs.append((j, raw, field.validate(c, raw)))
+                raw = dec(j, e2)
+                outs[k] = (raw, field.validate(c, raw))
             except Exception:
-                pass
-        _PRODUCED[key] = outs
-    for j, raw, res in _PRODUCED[key]:
-        if strict_eq(res, bad):
-            return j, raw
+                outs[k] = None
+        if outs[k] is not None and strict_eq(outs[k][1], bad):
+            return j, outs[k][0]
     return None
+
+
+INHERITED = ("min_len", "max_len", "regex", "choices", "case", "strip")
 
 
 def judge_invariant(env, op, status, found):
@@ -633,12 +664,12 @@ def judge_invariant(env, op, status, found):
     path, role, spec, bad, v = found[0]
     t = spec["t"]
     if t in SCALAR_T:
-        src = validator_produces(spec, v, env)
+        src = validator_produces(spec, v, env, op)
         if src is not None:
             j, raw = src
             names = "+".join(bad)
-            canonical = not isinstance(raw, float) and not strict_eq(raw, v) and not any(
-                b in conj(spec, raw, env) for b in bad) if _conj_ok(spec, raw, env) else False
+            canonical = all(b in INHERITED for b in bad) and type(raw) is type(v) and not strict_eq(raw, v) \
+                and not any(b in conj(spec, raw, env) for b in bad)
             wk = "%s:%s%s" % (t, names, ":canonical-form" if canonical else "")
             ob = "fields.%s._validate/post:%s" % (MODULE_OF[t], LBL_VAL)
             what = "%sField(%s) validates %s to %s, which violates its declared %s" % (
@@ -646,27 +677,19 @@ def judge_invariant(env, op, status, found):
             mini = {"schema": {"t": "Schema", "fields": [["f", spec]]}, "ops": [{"r": "attr", "p": ["f"], "v": j}]}
             return ob, wk, what, mini
     ob = "%s/%s:%s" % (carrier(op), "post" if status == "accepted" else "raise", LBL_INV)
-    wk = "stores-unvalidated-%s" % role
-    what = "after %s (%s) the value at %s is %s, violating %s of %s(%s)" % (
-        json.dumps(op), status, ".".join(map(str, path)), short(v), "+".join(bad), t,
+    wk = {"lop": "stores-unvalidated-item", "dop": "stores-unvalidated-entry"}.get(op["r"], "stores-unvalidated-value")
+    what = "after %s (%s) the value at %s (%s) is %s, violating %s of %s(%s)" % (
+        json.dumps(op), status, ".".join(map(str, path)), role, short(v), "+".join(bad), t,
         json.dumps(spec.get("kw", {})))
     return ob, wk, what, None
 
 
-def _conj_ok(spec, raw, env):
-    try:
-        conj(spec, raw, env)
-        return True
-    except Exception:
-        return False
-
-
 # --------------------------------------------------------------------------------------------- one sequence
 
-def run_sequence(schema_spec, ops, tmp):
+def run_sequence(schema_spec, ops, tmp, built=None):
     """execute one case on the real library -> (failures, statuses); a failure is a dict with obligation,
     witness_key, what, step and optionally a smaller replay.  Stops at the first failing step."""
-    env = Env(tmp, schema_spec)
+    env = Env(tmp, schema_spec, built)
     statuses = []
     start = 0
     first = {"r": "new"}
@@ -704,9 +727,14 @@ def _stamp(fails, n):
     return fails
 
 
+CLAUSES = {"invariant": 0, "read-equals-returned": 0, "normalised-form": 0, "normalised-form-undetermined": 0,
+           "no-other-field": 0}
+
+
 def _after_step(env, op, status, before):
     fails = []
     st, path, raw, ret = status
+    CLAUSES["invariant"] += 1
     found = check_config(env)
     if found:
         ob, wk, what, mini = judge_invariant(env, op, st, found)
@@ -719,6 +747,7 @@ def _after_step(env, op, status, before):
     read = navigate(env.cfg, path)
     car = carrier(op)
     tname = spec["t"] if spec else "Any"
+    CLAUSES["read-equals-returned"] += op["r"] != "ctor"
     if op["r"] != "ctor" and not (read is ret or strict_eq(dump(read), dump(ret))):
         fails.append({"obligation": "%s/post:%s" % (car, LBL_READ), "witness_key": tname, "mini": None,
                       "what": "%s returned %s but the field reads %s" % (json.dumps(op), short(ret), short(read))})
@@ -726,6 +755,8 @@ def _after_step(env, op, status, before):
         want = norm(spec, raw, env, tree=False)
     except Unknown:
         want = Unknown
+    CLAUSES["normalised-form" if want is not Unknown else "normalised-form-undetermined"] += 1
+    CLAUSES["no-other-field"] += 1
     if want is not Unknown and not strict_eq(dump(read), want):
         fails.append({"obligation": "%s/post:%s" % (car, LBL_NORM), "witness_key": tname, "mini": None,
                       "what": "%s: field reads %s, the normalised form of the assigned value is %s" % (
@@ -734,7 +765,8 @@ def _after_step(env, op, status, before):
     now = flat_fields(dump(env.cfg))
     tp = tuple(path)
     changed = [k for k in sorted(set(base) | set(now), key=repr)
-               if k[:len(tp)] != tp and not (k in base and k in now and strict_eq(base[k], now[k]))]
+               if k[:len(tp)] != tp and tp[:len(k)] != k
+               and not (k in base and k in now and strict_eq(base[k], now[k]))]
     if changed:
         fails.append({"obligation": "%s/post:%s" % (car, LBL_FRAME), "witness_key": tname, "mini": None,
                       "what": "%s also changed %s" % (json.dumps(op), [".".join(k) for k in changed])})
@@ -756,7 +788,17 @@ def _uniq(xs):
 NAN, INF = {"$f": "nan"}, {"$f": "inf"}
 
 
+_POOLS = {}
+
+
 def leaf_pool(spec):
+    k = json.dumps(spec, sort_keys=True)
+    if k not in _POOLS:
+        _POOLS[k] = _leaf_pool(spec)
+    return list(_POOLS[k])
+
+
+def _leaf_pool(spec):
     """JSON-coded raw values for a scalar field; the first five are the core: valid (not the default), just
     outside a bound / malformed, wrongly typed, None, valid needing normalisation; then boundaries and more."""
     t, kw = spec["t"], spec.get("kw", {})
@@ -821,11 +863,6 @@ def leaf_pool(spec):
     raise ValueError(t)
 
 
-def lax_of(spec):
-    """same field class without options (a sibling whose values can break the focus field's constraints)"""
-    return {"t": spec["t"]} if spec["t"] in SCALAR_T else None
-
-
 def container_values(spec):
     """whole-field values for a List/Dict spec (JSON-coded), core first"""
     t = spec["t"]
@@ -835,13 +872,15 @@ def container_values(spec):
             return [[1, "a"], "notalist", {"a": 1}, None, {"$t": [1, 2]}, [], [None], 5]
         if it["t"] in ("Schema", "ConfigType"):
             good, bad = item_dicts(it)
-            vals = [[good[0]], [good[0], bad[0]], "notalist", None, {"$t": [good[-1]]}, [], [5], [bad[-1]],
-                    [{"$cfg": good[0], "at": spec["_at"]}], {"$other": spec["_at"]}]
+            vals = [[good[0]], [good[0], bad[0]], "notalist", None, {"$t": [good[-1]]}, [], [5], [bad[-1]]]
+            if "_at" in spec:
+                vals += [[{"$cfg": good[0], "at": spec["_at"]}], {"$other": spec["_at"]}]
             return _uniq(vals)
         pool = item_pool(it)
         v1, bad1, wrong, _, v2 = pool[:5]
-        vals = [[v1, v2], [v1, bad1], "notalist", None, {"$t": [v2]}, [], [wrong], [None], {"a": 1},
-                {"$other": spec["_at"]}, [bad1]]
+        vals = [[v1, v2], [v1, bad1], "notalist", None, {"$t": [v2]}, [], [wrong], [None], {"a": 1}, [bad1]]
+        if "_at" in spec:
+            vals.append({"$other": spec["_at"]})
         if "_lax" in spec:
             vals.append({"$self": spec["_lax"]})
         return _uniq(vals)
@@ -854,7 +893,9 @@ def container_values(spec):
         k1, kbad, kwrong, _, k2 = ks[:5]
         v1, vbad, vwrong, _, v2 = vs[:5]
         vals = [{"$d": [[k1, v1], [k2, v2]]}, {"$d": [[k1, vbad]]}, "notadict", None, {"$d": [[k2, v2]]}, {},
-                [[k1, v1]], {"$d": [[k1, None]]}, {"$other": spec["_at"]}]
+                [[k1, v1]], {"$d": [[k1, None]]}]
+        if "_at" in spec:
+            vals.append({"$other": spec["_at"]})
         if kspec:
             vals += [{"$d": [[kbad, v1]]}, {"$d": [[kwrong, v1]]}]
         if vspec:
@@ -931,7 +972,7 @@ def list_inplace_ops(path, spec, level):
     """in-place operations on the list at `path`; level 0 = all, 1 = mid, 2 = small"""
     it = spec.get("item")
     if it is None:
-        vals = [1, "a", None, [1]]
+        vals = [1, "a", None, [1], {"a": 1}]
     elif it["t"] in ("Schema", "ConfigType"):
         good, bad = item_dicts(it)
         vals = [good[1] if len(good) > 1 else good[0], bad[0], 5, None, good[-1],
@@ -988,14 +1029,17 @@ def dict_inplace_ops(path, spec, level):
     if vspec:
         pairs += [[k1, vwrong]]
     pairs = [p for p in pairs if hashable_json(p[0])]
+    ops = []
     if level == 2:
         return [{"r": "dop", "p": path, "m": "setitem", "a": pairs[0]},
                 {"r": "dop", "p": path, "m": "setitem", "a": pairs[1]},
                 {"r": "dop", "p": path, "m": "ior_dict", "a": {"$d": [pairs[1]]}},
                 {"r": "dop", "p": path, "m": "update_pairs", "kind": "gen", "a": [pairs[0], pairs[1]]},
                 {"r": "dop", "p": path, "m": "pop", "a": k1}]
-    ops = []
-    use = pairs if level == 0 else pairs[:2] + pairs[3:4]
+    use = pairs if level == 0 else pairs[:2]
+    if level == 1 and len(pairs) > 3:
+        ops += [{"r": "dop", "p": path, "m": "setitem", "a": pairs[3]},
+                {"r": "dop", "p": path, "m": "ior_dict", "a": {"$d": [pairs[3]]}}]
     for p in use:
         ops.append({"r": "dop", "p": path, "m": "setitem", "a": p})
         ops.append({"r": "dop", "p": path, "m": "setdefault", "a": p})
@@ -1179,11 +1223,10 @@ def scenarios(tier):
         pool = leaf_pool(spec)
         schema = {"t": "Schema", "fields": [["f", spec], BYSTANDER]}
         full = scalar_ops(["f"], spec, ALL_ROUTES, pool, argv=True)
-        mid = scalar_ops(["f"], spec, ["attr", "item", "ctor", "tree", "loads", "cmdline"], pool[:3]) + \
-            scalar_ops(["f"], spec, ["attr"], pool[3:5], with_reset=False)
-        small = scalar_ops(["f"], spec, ["attr", "tree"], pool[:2]) + \
-            scalar_ops(["f"], spec, ["cmdline", "ctor"], pool[4:5], with_reset=False) + \
-            [{"r": "attr", "p": ["o"], "v": 8}]
+        mid = scalar_ops(["f"], spec, ["attr", "item", "ctor", "tree", "loads", "cmdline"], pool[:2]) + \
+            scalar_ops(["f"], spec, ["attr"], pool[2:5], with_reset=False)
+        small = scalar_ops(["f"], spec, ["attr"], pool[:2]) + scalar_ops(["f"], spec, ["tree"], pool[:1], False) + \
+            scalar_ops(["f"], spec, ["cmdline"], pool[4:5], with_reset=False) + [{"r": "attr", "p": ["o"], "v": 8}]
         out.append(("top/" + name, schema, full, mid, small))
     # (2) containers at top level, with an unconstrained sibling `g` and a bystander
     for name, spec in containers():
@@ -1238,7 +1281,7 @@ def scenarios(tier):
             ("dynamic", {"t": "Schema", "dynamic": True, "fields": [["f", spec], BYSTANDER]}, ["f"]),
         ]
         for shape, schema, path in shapes:
-            full = scalar_ops(path, spec, ALL_ROUTES, core, argv=(shape != "dynamic"))
+            full = scalar_ops(path, spec, ALL_ROUTES, core, argv=(shape in ("sub", "sub3")))
             mid = scalar_ops(path, spec, ["attr", "item", "tree", "ctor"], core[:3])
             small = scalar_ops(path, spec, ["item", "tree"], core[:2])
             if shape in ("sub", "ctype"):                       # whole sub-configuration assigned from a dict
@@ -1308,51 +1351,76 @@ def rac(tier="quick", seed=0):
               "seeded random sequences of length 4 until the budget is used",
         tier=tier, seed=seed)
     _PRODUCED.clear()
-    accepted = rejected = 0
+    for k in CLAUSES:
+        CLAUSES[k] = 0
+    stats = {}
+    cwd = os.getcwd()
     with sandbox() as tmp:
-        prepare_fs(tmp)
-        scen = scenarios(tier)
-        for name, schema, full, mid, small in scen:
-            pub = strip_private(schema)
-            for ops in sequences(full, mid, small, tier):
-                ops = strip_private(ops)
-                accepted, rejected = _one(rec, tmp, name, pub, ops, accepted, rejected)
-        if tier != "quick":
-            while not rec.out_of_time():
-                name, schema, full, mid, small = scen[rec.rng.randrange(len(scen))]
-                ops = [full[rec.rng.randrange(len(full))] for _ in range(4)]
-                ops = strip_private([o for i, o in enumerate(ops) if i == 0 or o["r"] != "ctor"])
-                accepted, rejected = _one(rec, tmp, name, strip_private(schema), ops, accepted, rejected)
+        try:
+            os.chdir(tmp)                                   # relative file names resolve inside the sandbox
+            prepare_fs(tmp)
+            scen = scenarios(tier)
+            scen = [(n, strip_private(sc), strip_private(f), strip_private(m), strip_private(sm))
+                    for n, sc, f, m, sm in scen]
+            for name, schema, full, mid, small in scen:
+                proto = Env(tmp, schema)
+                built = (proto.schema, proto.types)
+                for ops in sequences(full, mid, small, tier):
+                    _one(rec, tmp, name, schema, ops, stats, built)
+                # the shared schema object must not have picked up state from the cases run on it
+                if not strict_eq(dump(proto.schema()), dump(Env(tmp, schema).schema())):
+                    raise RuntimeError("C01 driver: schema of scenario %s changed while cases ran on it" % name)
+            if tier != "quick":
+                while not rec.out_of_time():
+                    name, schema, full, mid, small = scen[rec.rng.randrange(len(scen))]
+                    ops = [full[rec.rng.randrange(len(full))] for _ in range(4)]
+                    ops = [o for i, o in enumerate(ops) if i == 0 or o["r"] != "ctor"]
+                    _one(rec, tmp, name, schema, ops, stats)
+        finally:
+            os.chdir(cwd)
     res = rec.result(exhaustive=False)
-    res["steps_accepted"], res["steps_rejected"] = accepted, rejected
+    res["scenarios"] = len(scen)
+    res["clause_evaluations"] = dict(CLAUSES)
+    res["steps"] = {k: stats[k] for k in sorted(stats)}     # per route: [accepted, rejected, not applicable]
     return res
 
 
-def _one(rec, tmp, name, schema, ops, accepted, rejected):
-    fails, statuses = run_sequence(schema, ops, tmp)
-    accepted += statuses.count("accepted")
-    rejected += statuses.count("rejected")
+def _one(rec, tmp, name, schema, ops, stats, built=None):
+    fails, statuses = run_sequence(schema, ops, tmp, built)
+    for op, st in zip(ops, statuses):
+        k = op["r"] + ("." + op["m"] if "m" in op else "")
+        stats.setdefault(k, [0, 0, 0])[("accepted", "rejected", "n/a").index(st)] += 1
     rec.case(key=(name, json.dumps(ops, sort_keys=True)),
              nontrivial=any(s != "n/a" for s in statuses) and bool(schema["fields"]),
              sample={"scenario": name, "schema": schema, "ops": ops, "statuses": statuses}
              if len(ops) == 2 and rec.evaluations % 997 == 0 else None)
     for f in fails:
+        if any(v["obligation"] == f["obligation"] and v["witness_key"] == f["witness_key"] for v in rec.violations):
+            continue
         case = {"schema": schema, "ops": ops[:f["step"] + 1], "obligation": f["obligation"],
                 "witness_key": f["witness_key"]}
-        if f.get("mini"):
+        if f.get("mini"):                                   # one-field schema + one assignment, if that fails alike
             mini = dict(f["mini"], obligation=f["obligation"], witness_key=f["witness_key"])
             if replay(mini, tmp)["fails"]:
                 case = mini
-        rec.violation(obligation=f["obligation"], what=f["what"], replay=case, witness_key=f["witness_key"])
-    return accepted, rejected
+        # a violation is reported only as a checked fact: it must reproduce on a schema built from scratch
+        if not replay(case, tmp)["fails"]:
+            raise RuntimeError("C01 driver: violation not reproduced from scratch: %s" % json.dumps(case))
+        rec.violation(obligation=f["obligation"], what=f["what"].replace(tmp, "$TMP"), replay=case,
+                      witness_key=f["witness_key"])
 
 
 def replay(case, tmp=None):
     """re-execute one replay dict on the current /repo"""
     if tmp is None:
+        cwd = os.getcwd()
         with sandbox() as tmp2:
-            prepare_fs(tmp2)
-            return replay(case, tmp2)
+            try:
+                os.chdir(tmp2)
+                prepare_fs(tmp2)
+                return replay(case, tmp2)
+            finally:
+                os.chdir(cwd)
     fails, statuses = run_sequence(case["schema"], case["ops"], tmp)
     want = case.get("obligation")
     hit = [f for f in fails if want is None or (f["obligation"] == want and
